@@ -31,10 +31,10 @@ type Entry struct {
 	// decoded, and must not make the object panic.
 	Reuse func() func(in []byte) Result
 	// C09:
-	Canon      bool // accepted => Reenc == input
+	Canon bool // accepted => Reenc == input
 	// Prefix: the decoder documents (and its tests pin) that it parses a prefix of
 	// its input and ignores what follows; then accepted => Reenc == input[:len(Reenc)]
-	Prefix bool
+	Prefix     bool
 	Membership bool // accepted => Member
 	// format-aware faults (C09/C10): each returns a corrupted variant of v
 	Aware []func(v []byte, a int) []byte
@@ -63,6 +63,17 @@ func Register(e *Entry) {
 }
 
 func Names() []string { return names }
+
+// ReuseNames lists the entries that also run the receiver-object-reuse oracle.
+func ReuseNames() []string {
+	var out []string
+	for _, n := range names {
+		if registry[n].Reuse != nil {
+			out = append(out, n)
+		}
+	}
+	return out
+}
 func Get(n string) *Entry { return registry[n] }
 
 // Mut is one fault of the medium.
@@ -570,5 +581,5 @@ func directed(tier string, filter func(*Entry) bool, flipsOnly bool) []any {
 // go/ast scan of /repo that have no registry entry (kept visible, not hidden).
 var uncovered []string
 
-func Uncovered() []string { return uncovered }
+func Uncovered() []string       { return uncovered }
 func NoteUncovered(s ...string) { uncovered = append(uncovered, s...) }
